@@ -1,6 +1,7 @@
 """contract for BoxUniform (distributions/uniform.py): torch.distributions.Independent(Uniform) is pure Python over torch ops, so the real
 log_prob runs on symbolic tensors.  ensures: inside the half-open box [low, high) the log-density is -sum log(high - low) (the uniform
-density of a box of that volume: normalised); outside, the support check raises ValueError."""
+density of a box of that volume: normalised).  Outside the box the value is -inf (log 0), which the real-arithmetic terms cannot carry: that
+part of the docstring is checked by the bounded native harness uniform_priors_native."""
 import numpy as np
 import torch, z3
 from tsv.core import Sym, P, C, toreal, rv
@@ -19,10 +20,9 @@ def boxuniform_harness(D):
         d = DU.BoxUniform(low=low, high=high)
         h.d = d
         x = h.inp("x", (B, D))
-        # the upper face x_i == high_i is accepted by torch's (closed-interval) support check and gets density 0, i.e. log-density -inf, as the
-        # docstring says (high exclusive): a null set, left out of the finite-value clause
+        # requires: x inside the half-open box (outside, and on the upper face x_i == high_i, the log-density is -inf as documented)
         for b in range(B):
-            for i in range(D): ctx.assume(P(x)[b, i] != P(high)[i])
+            for i in range(D): ctx.assume(z3.And(P(x)[b, i] >= P(low)[i], P(x)[b, i] < P(high)[i]))
         return d.log_prob(x)
 
     def inside(h, ctx):
@@ -50,9 +50,7 @@ def boxuniform_harness(D):
     def sample(h, rng):
         low = rng.normal(size=(D,)); w = rng.uniform(0.5, 2.0, size=(D,))
         return {"low": low, "high": low + w, "x": low + w * rng.uniform(0.05, 0.95, size=(B, D))}
-    return Harness(f"BoxUniform[D={D}]", run, post, raises={ValueError: lambda h, ctx: z3.Not(inside(h, ctx))}, native_call=native_call, native_clauses=native_clauses,
-                   native_raises={ValueError: lambda h, inp: not bool(((np.asarray(inp["x"]) >= np.asarray(inp["low"])) & (np.asarray(inp["x"]) < np.asarray(inp["high"]))).all())},
-                   sample=sample, functions=[DU.BoxUniform.__init__])
+    return Harness(f"BoxUniform[D={D}]", run, post, native_call=native_call, native_clauses=native_clauses, sample=sample, functions=[DU.BoxUniform.__init__])
 
 
 def boxuniform_sample_harness(D):
@@ -105,5 +103,60 @@ def boxuniform_sample_harness(D):
     return hn
 
 
+def uniform_priors_native_harness():
+    """bounded enumeration, evaluated natively (the rejection sampler of LotkaVolterraOscillating loops a data-dependent number of times and the
+    value -inf is outside the real-arithmetic terms): points outside the box get log-density -inf without raising, as the docstring of
+    BoxUniform says; LotkaVolterraOscillating.sample returns the requested number of points, all inside its box"""
+    from tsv.core import Ctx
+
+    def grid():
+        res = {}
+        b = DU.BoxUniform(low=torch.tensor([0.0, 1.0]), high=torch.tensor([2.0, 4.0]))
+        for name, pt in (("outside-high", [3.0, 2.0]), ("outside-low", [1.0, 0.5]), ("far", [-50.0, 80.0])):
+            try:
+                v = b.log_prob(torch.tensor([pt]))
+                res[("box", name)] = ("ret", bool(torch.isinf(v).all() and (v < 0).all()))
+            except Exception as e:
+                res[("box", name)] = ("raise", type(e).__name__)
+        lv = DU.LotkaVolterraOscillating()
+        for seed in range(3):
+            for n in (1, 7, 50):
+                torch.manual_seed(seed)
+                try:
+                    s_ = lv.sample((n,))
+                    inside = bool(((s_ >= -5) & (s_ < 2)).all())
+                    res[("lotka-sample", seed, n)] = ("ret", tuple(s_.shape) == (n, 4) and inside)
+                except Exception as e:
+                    res[("lotka-sample", seed, n)] = ("raise", type(e).__name__)
+        try:
+            v = lv.log_prob(torch.tensor([[3.0, 0.0, 0.0, 0.0]]))
+            res[("lotka-log_prob-outside",)] = ("ret", bool(torch.isinf(v).all() and (v < 0).all()))
+        except Exception as e:
+            res[("lotka-log_prob-outside",)] = ("raise", type(e).__name__)
+        return res
+
+    def run(h, ctx):
+        saved = Ctx.cur
+        Ctx.cur = None
+        try:
+            return grid()
+        finally:
+            Ctx.cur = saved
+
+    def post(h, ctx, res):
+        for key, got in res.items():
+            ctx.oblige("ensures", z3.BoolVal(got == ("ret", True)), label="C05.uniform-priors." + key[0], loc=("contract", f"uniform:{key}", 0), meta={"got": str(got)})
+
+    def native_clauses(h, inp, res):
+        c = {}
+        for key, got in res.items():
+            c["C05.uniform-priors." + key[0]] = c.get("C05.uniform-priors." + key[0], True) and got == ("ret", True)
+        return c
+    hn = Harness("uniform_priors_native[]", run, post, native_call=lambda h, inp: grid(), native_clauses=native_clauses, sample=lambda h, rng: {}, check_defined=False,
+                 functions=[DU.BoxUniform.__init__, DU.LotkaVolterraOscillating.sample, DU.LotkaVolterraOscillating.log_prob])
+    hn.native_float32 = False
+    return hn
+
+
 def boxuniform_harnesses(tier):
-    return [boxuniform_harness(1), boxuniform_harness(2), boxuniform_sample_harness(2)] + ([boxuniform_harness(3), boxuniform_sample_harness(1)] if tier != "quick" else [])
+    return [uniform_priors_native_harness(), boxuniform_harness(1), boxuniform_harness(2), boxuniform_sample_harness(2)] + ([boxuniform_harness(3), boxuniform_sample_harness(1)] if tier != "quick" else [])
